@@ -24,6 +24,8 @@ Flag(c, name) == IF c THEN {} ELSE {name}
 
 At(f, a, d) == IF a \in DOMAIN f THEN f[a] ELSE d
 Set(f, a, v) == IF a \in DOMAIN f THEN [f EXCEPT ![a] = v] ELSE f @@ (a :> v)
+\* `may` also remembers which path generations were validated with proof (addresses are positive)
+GenKey(g) == 0 - (g + 1)
 
 TInit == /\ l = 1 /\ bad = {} /\ rx = <<>> /\ tx = <<>> /\ may = <<>> /\ gen = 0 /\ curRem = 0
          /\ lastReset = <<>> /\ interval = 0 /\ cur = <<0, "none", 0>>
@@ -50,11 +52,13 @@ RxC ==
      IN
        /\ rx' = Set(rx, a, rx0 + e.size)
        /\ tx' = Set(tx, a, tx0)
-       /\ may' = Set(may, a, may0 \/ e.proves)
+       \* the implementation may consider the current path validated only with a proof - now, or
+       \* earlier for this very path generation (a failed validation returns to the path before it)
+       /\ LET legit == may0 \/ e.proves \/ At(may, e.path.rem, FALSE) \/ At(may, GenKey(e.path.gen), FALSE)
+              m1 == Set(may, a, may0 \/ e.proves)
+          IN /\ may' = IF e.path.val /\ legit THEN Set(Set(m1, e.path.rem, TRUE), GenKey(e.path.gen), TRUE) ELSE m1
+             /\ bad' = bad \cup Flag(e.path.val => legit, "ValidatedWithoutProof")
        /\ gen' = e.path.gen /\ curRem' = e.path.rem
-       \* the implementation may consider the current path validated only with a proof
-       /\ bad' = bad \cup Flag(e.path.val => (may0 \/ e.proves \/ At(may, e.path.rem, FALSE)),
-                               "ValidatedWithoutProof")
   /\ l' = l + 1 /\ UNCHANGED <<lastReset, interval, cur>>
 
 RECURSIVE SumTo(_, _)
@@ -76,8 +80,10 @@ TxC ==
 Tick ==
   /\ Is("Tick")
   /\ gen' = e.path.gen /\ curRem' = e.path.rem
-  /\ bad' = bad \cup Flag(e.path.val => At(may, e.path.rem, FALSE), "ValidatedWithoutProof")
-  /\ l' = l + 1 /\ UNCHANGED <<rx, tx, may, lastReset, interval, cur>>
+  /\ LET legit == At(may, e.path.rem, FALSE) \/ At(may, GenKey(e.path.gen), FALSE)
+     IN /\ bad' = bad \cup Flag(e.path.val => legit, "ValidatedWithoutProof")
+        /\ may' = IF e.path.val /\ legit THEN Set(Set(may, e.path.rem, TRUE), GenKey(e.path.gen), TRUE) ELSE may
+  /\ l' = l + 1 /\ UNCHANGED <<rx, tx, lastReset, interval, cur>>
 
 \* endpoint level ---------------------------------------------------------------------------
 Resp ==
